@@ -329,7 +329,9 @@ func verifierCases(r *run.R) {
 					r.Count("verify_rejected_although_allowed", 1)
 				default:
 					r.Count("verify_rejected", 1)
-					if isPinned {
+					if isPinned && rule == "" {
+						r.Count("verify_rejected_rsa_signature_only", 1)
+					} else if isPinned {
 						r.Count("verify_rejected_pinned_rule_"+strings.SplitN(rule, ":", 2)[0], 1)
 						r.Nontrivial(caseID)
 					} else {
@@ -390,6 +392,13 @@ func verifierCases(r *run.R) {
 		{"pinned-expired", certs["ed25519-self/expired"], true},
 		{"pinned-not-yet-valid", certs["ecdsa-p256-self/not-yet-valid"], true},
 	}
+	type forbiddenChain struct {
+		caseID, variant, sig, msg string
+		chain                     []*genCert
+		list                      []multihash.DecodedMultihash
+		v                         verdict
+	}
+	var accepted []forbiddenChain
 	for _, b := range bads {
 		for _, order := range []string{"bad-first", "good-first"} {
 			caseID := fmt.Sprintf("verify/chain2/%s/%s", b.name, order)
@@ -414,8 +423,12 @@ func verifierCases(r *run.R) {
 				r.Count("verify_accepted_forbidden", 1)
 				lastOK := pinned(chain[1].raw, list) && chain[1].brokenRule() == ""
 				sig := "verify:accepted-invalid-chain"
-				if lastOK {
-					// the acceptance is explained by judging the last entry instead of the served one
+				if !pinned(served.raw, list) {
+					sig = "verify:accepted-unpinned-chain"
+				}
+				if lastOK && !callVerifier(raws[:1], list).accepted {
+					// entry 0 alone is refused, followed by a good pinned entry it is accepted: the verifier
+					// judges the last entry instead of the served one
 					sig = "verify:chain-leaf-is-last-not-first"
 				}
 				tlsOK, tlsErr := tlsHandshakeAccepts(raws, served.key, list)
@@ -423,8 +436,8 @@ func verifierCases(r *run.R) {
 				if pinned(served.raw, list) {
 					why = "it breaks rule " + served.brokenRule()
 				}
-				report(sig, caseID, fmt.Sprintf("verifier accepted the chain [%s, %s]: the served certificate is entry 0 (%s), %s; entry 1 is a pinned valid certificate. crypto/tls handshake with a server holding only entry 0's key and this verifier as VerifyPeerCertificate completed: %v %s",
-					chain[0].describe(), chain[1].describe(), chain[0].describe(), why, tlsOK, tlsErr), chain, list, v)
+				accepted = append(accepted, forbiddenChain{caseID, b.name, sig, fmt.Sprintf("verifier accepted the chain [%s, %s]: the served certificate is entry 0, %s; entry 1 is a pinned valid certificate. A crypto/tls handshake with a server that holds only entry 0's key, client configured like transport.dial with this verifier, completed: %v %s",
+					chain[0].describe(), chain[1].describe(), why, tlsOK, tlsErr), chain, list, v})
 			case v.accepted:
 				r.Count("verify_chain2_accepted_allowed", 1)
 				r.Nontrivial(caseID)
@@ -435,6 +448,25 @@ func verifierCases(r *run.R) {
 				}
 			}
 		}
+	}
+	// one violation per signature (shortest variant first), the other accepted variants named in it
+	reported := map[string]bool{}
+	for _, a := range accepted {
+		if reported[a.sig] {
+			continue
+		}
+		reported[a.sig] = true
+		var also []string
+		for _, o := range accepted {
+			if o.sig == a.sig && o.caseID != a.caseID {
+				also = append(also, o.variant)
+			}
+		}
+		msg := a.msg
+		if len(also) > 0 {
+			msg += fmt.Sprintf(" Also accepted with entry 0 = %v.", also)
+		}
+		report(a.sig, a.caseID, msg, a.chain, a.list, a.v)
 	}
 
 	// -- random crossings (thorough: many more) -----------------------------------------------------
@@ -483,7 +515,9 @@ func verifierCases(r *run.R) {
 			r.Count("verify_rejected_although_allowed", 1)
 		default:
 			r.Count("verify_rejected", 1)
-			if isPinned {
+			if isPinned && rule == "" {
+				r.Count("verify_rejected_rsa_signature_only", 1)
+			} else if isPinned {
 				r.Count("verify_rejected_pinned_rule_"+strings.SplitN(rule, ":", 2)[0], 1)
 				r.Nontrivial(caseID)
 			}
